@@ -388,6 +388,16 @@ func cmdCheck(prop, tier string) int {
 	if tier == "thorough" {
 		nSamples = 2
 	}
+	if os.Getenv("VERIF_XCHECK_EVERY") == "" {
+		// the third assertion verdict of up to 48 (quick) / 200 (thorough) roots is re-decided on z3-new and cvc5
+		os.Setenv("VERIF_XCHECK_EVERY", "3")
+	}
+	if tier == "thorough" {
+		xcheckBudget.Store(200)
+	} else {
+		xcheckBudget.Store(48)
+	}
+	os.RemoveAll(filepath.Join(verifDir, "out", "xcheck"))
 	results := runAll(l, jobs, workers, nSamples)
 
 	// ---- aggregate
@@ -401,6 +411,7 @@ func cmdCheck(prop, tier string) int {
 	funcs := map[string]int{}
 	stubs := map[string]int{}
 	reachedAll := map[string]int{}
+	xs, xa, xd, xi := 0, 0, 0, 0
 	for _, r := range results {
 		agg.paths += r.Paths
 		agg.done += r.Done
@@ -421,6 +432,10 @@ func cmdCheck(prop, tier string) int {
 		}
 		for k, v := range r.Reached {
 			reachedAll[r.Spec.Fn+":"+k] += v
+		}
+		xs, xa, xd, xi = xs+r.XSampled, xa+r.XAgreed, xd+r.XDisagreed, xi+r.XInconcl
+		if r.XDisagreed > 0 {
+			inconclusive = append(inconclusive, fmt.Sprintf("%s%v: solver disagreement on %d cross-checked queries (scripts kept in out/xcheck)", r.Spec.Fn, r.Args, r.XDisagreed))
 		}
 		if r.Err != "" {
 			inconclusive = append(inconclusive, fmt.Sprintf("%s%v: %s", r.Spec.Fn, r.Args, r.Err))
@@ -735,6 +750,7 @@ func cmdCheck(prop, tier string) int {
 			"solver_time_s":                 round3(agg.solverS),
 			"load_time_s":                   round3(l.dur.Seconds()),
 			"stubs_hit":                     stubs,
+			"cross_check":                   map[string]any{"solvers": "z3-new 5.1.0, cvc5 1.0.3 (standalone SMT-LIB2 script per sampled verdict query)", "sampled": xs, "agreed": xa, "disagreed": xd, "other_solver_unknown_or_timeout": xi},
 			"reach_labels":                  reachedAll,
 			"inconclusive":                  inconclusive,
 			"findings":                      findings,
